@@ -170,7 +170,7 @@ def invariance(tier, seed, whats=("perm-rows", "perm-cols", "indep", "onehot", "
 
 def mlcl(tier, seed):
     from .mlcl_grads import Inject
-    rs = np.random.RandomState(seed)
+    rs = np.random.RandomState(20240)        # the permutations are part of the obligation names: fixed, not drawn from the run's seed
     L = []
     for n, K, bs in ((9, 4, 4), (12, 5, None), (14, 3, 5), (11, 4, 11)):
         perm = tuple(int(i) for i in rs.permutation(n))
